@@ -423,3 +423,27 @@ PROPS['C16'] = dict(
            dict(name='dispatch_p2_r3', harness='h_dispatch', defs=['NRANKS=2', 'MAXJOBS=2', 'ROUNDS=3'], models=[], mpiexec=2, split={'jobs0': R(3), 'jobs1': R(3), 'jobs2': R(3)},
                 max_loop=200000, tiers=[T], witnesses=['done', 'all_ranks_finished'])],
 )
+
+def _mpi_unit(name, nr, step, ncomp=1, clear='false', tiers=(Q, T), wit=('done',)):
+    return dict(name=name, harness='h_mpisteps', defs=['NRANKS=%d' % nr, 'STEP=%d' % step, 'NCOMP=%d' % ncomp, 'CLEAR=%s' % clear], models=[],
+                mpiexec=nr, numeric_exp=True, max_loop=2000000, max_steps=200_000_000, tiers=list(tiers), witnesses=list(wit))
+
+
+PROPS['C06'] = dict(
+    claim='Decided fragments of rank-independence and termination: (1) the dispatcher (units of C16: the whole mpi_skel::run on simulated ranks for every '
+          'delivery order); (2) the real distributed steps Hamiltonian::prepare/compute, TwoParticleGF::compute and TwoParticleGFContainer::computeAll '
+          '(split and unsplit) executed by 2-3 simulated ranks, each with its own objects, against the multi-rank MPI model (collectives are '
+          'rendezvous with root / kind consistency checks): no deadlock, every rank ends with the eigen-data of a serial computation, the '
+          'frequency tables equal the serial reference where the interface returns them, every listed two-particle component is evaluable on '
+          'every rank.',
+    bounds={Q: 'Hubbard atom (1x1 blocks: no eigen-solver), ranks 2 and 3, 1-3 two-particle components incl. more ranks than components and '
+               'component counts not divisible by the number of colours; first 3 delivery decisions nondeterministic', T: 'same'},
+    assumptions=['MPI model of C16', 'exp evaluated numerically in these concrete units (values compared to 1e-9)'],
+    outside=['equality of floating-point results between REAL multi-rank runs (rounding / reduction order)', 'OpenMP thread schedules (the pragma is '
+             'compiled out of the verification build)', 'models with blocks larger than 1x1 (eigen-solver)', 'rank counts beyond 3 (model capacity 4)'],
+    units=[_mpi_unit('ham_p2', 2, 0), _mpi_unit('ham_p3', 3, 0),
+           _mpi_unit('chi_nosplit_p2_c2', 2, 1, 2), _mpi_unit('chi_split_p2_c1', 2, 2, 1), _mpi_unit('chi_split_p2_c2', 2, 2, 2),
+           _mpi_unit('chi_split_p2_c3', 2, 2, 3), _mpi_unit('chi_split_p3_c2', 3, 2, 2), _mpi_unit('chi_split_p2_c2_clear', 2, 2, 2, 'true'),
+           _mpi_unit('chi_nosplit_p3_c1', 3, 1, 1, tiers=(T,)), _mpi_unit('chi_split_p3_c3', 3, 2, 3, tiers=(T,))] +
+          [dict(u, name='c16_' + u['name']) for u in PROPS['C16']['units'] if u['name'] in ('dispatch_p2', 'dispatch_p3')],
+)
